@@ -378,6 +378,10 @@ func (s *Stream) reset() error {
 		return fmt.Errorf("stream had unread data, size:%d ", unreadSize)
 	}
 
+	if unsent := s.sendBuf.Len(); unsent > 0 {
+		return fmt.Errorf("stream had unflushed data, size:%d ", unsent)
+	}
+
 	s.pendingData.Lock()
 	if len(s.pendingData.unread) > 0 {
 		s.pendingData.Unlock()
